@@ -175,14 +175,26 @@ impl TransitivityProof {
     }
 }
 
-// replaces 'private' slots with enumerated slot-names, like a shape.
+// replaces 'private' slots with enumerated slot-names.
+// The numbers follow the binders alone (order of their first occurrence in the node without the arguments of its
+// children): two e-nodes that differ only in their children number their bound slots alike.
 pub(crate) fn alpha_normalize<L: Language>(n: &L) -> L {
-    let (sh, bij) = n.weak_shape();
-    if CHECKS {
-        let all_slots: SmallHashSet<_> = sh.all_slot_occurrences().into_iter().collect();
-        assert!(&bij.values().is_disjoint(&all_slots));
+    let n = n.refresh_private();
+    let prv: SmallHashSet<Slot> = n.private_slot_occurrences().into_iter().collect();
+    let mut m = SlotMap::new();
+    for s in nullify_app_ids(&n).all_slot_occurrences() {
+        if prv.contains(&s) && !m.contains_key(s) {
+            m.insert(s, Slot::numeric(m.len() as u32));
+        }
     }
-    sh.apply_slotmap(&bij)
+    let mut out = n.clone();
+    for x in out.private_slot_occurrences_mut() {
+        *x = m[*x];
+    }
+    if CHECKS {
+        assert!(&m.values().is_disjoint(&out.slots()));
+    }
+    out
 }
 
 impl CongruenceProof {
